@@ -173,10 +173,13 @@ def explore_load(prop, tier, seed, oracle, tags, n_quick, emit=(), with_truth=Fa
         if h is None:
             continue
         o = ob.Obs(); o.put('load', 'ok')
-        ob.observe_load(h, o)
-        if pyobs:
-            pyobs(h, o)
-        bad = oracle(D, h)
+        try:
+            ob.observe_load(h, o)
+            if pyobs:
+                pyobs(h, o)
+            bad = oracle(D, h)
+        except Exception as e:      # noqa
+            bad = ['observing the loaded analysis raised %s: %s' % (type(e).__name__, e)]
         if bad:
             ex.fail(cid, D, bad)
         ex.submit(cid, D, o.tags, tags, emit=emit, extra=o)
@@ -380,7 +383,12 @@ def c11(tier, seed):
         full = load_or_fail(ex, cid, D)
         if full is None:
             continue
-        fo = ob.Obs(); ob.observe_load(full, fo)
+        fo = ob.Obs()
+        try:
+            ob.observe_load(full, fo)
+        except Exception as e:      # noqa
+            ex.fail(cid, D, ['observing the loaded analysis raised %s: %s' % (type(e).__name__, e)])
+            continue
         full_forest = dict(x.split('=', 1) for x in fo.tags.get('forest', []))
         decl = core.declared_map(D)
         allg = list(decl)
@@ -415,7 +423,11 @@ def c11(tier, seed):
                 o.put(pfx + 'load', 'err:' + ob.err_name(e))
                 continue
             o.put(pfx + 'load', 'ok')
-            ob.observe_load(hf, o, pfx)
+            try:
+                ob.observe_load(hf, o, pfx)
+            except Exception as e:      # noqa
+                bad.append('observing the filtered analysis raised %s: %s' % (type(e).__name__, e))
+                continue
             # the property itself: projection of the full load
             if sorted(hf.get_dict_top_level_hogs()) != sorted(want_fams):
                 bad.append('filter %s/%s/%s selected %s, expected %s' % (hog_ids, int_ids, ext_ids, sorted(hf.get_dict_top_level_hogs()), sorted(want_fams)))
@@ -593,7 +605,12 @@ def c19(tier, seed):
         h = load_or_fail(ex, cid, D)
         if h is None:
             continue
-        o = ob.Obs(); o.put('load', 'ok'); ob.observe_load(h, o); ob.observe_ann(h, o)
+        o = ob.Obs(); o.put('load', 'ok')
+        try:
+            ob.observe_load(h, o); ob.observe_ann(h, o)
+        except Exception as e:      # noqa
+            ex.fail(cid, D, ['observing the loaded analysis raised %s: %s' % (type(e).__name__, e)])
+            continue
         bad = []
         # the property, from the generating histories
         nf = orc.name_fn(D)
